@@ -50,6 +50,7 @@ def run(tier, seed):
     n = vc.triage(PID, viol)
     cov = dict(tot)
     cov["states"] = tot["evaluations"]
+    cov["evaluations"] = tot["transitions"] + ltot["evaluations"]  # cases = queries made (a (topology, source) pair is a state)
     cov["traces_validated_against_impl"] = tot["transitions"]
     cov["concurrent_interleavings"] = {"executions": rm["executions"], "exhaustive": rm["exhaustive"], "bound_p": int(p),
                                        "scenarios": [r["id"] for r in rreps]}
